@@ -154,6 +154,15 @@ func (r *RuntimeRecorder) remergeRecords(ctx context.Context, records Records) {
 			r.records[devID] = prev
 		} else {
 			curr.Queries += prev.Queries
+
+			// The remerged record could be newer than the current one if
+			// several refreshes have failed concurrently.
+			if prev.Time.After(curr.Time) {
+				curr.Time = prev.Time
+				curr.Country = prev.Country
+				curr.ASN = prev.ASN
+				curr.Proto = prev.Proto
+			}
 		}
 	}
 
